@@ -22,7 +22,7 @@ ID = "C01"
 LEAN_MODULES = ["FaxVerif.C01.Theorems"]
 LEAN_SOURCES = ["FaxVerif/C01", "FaxVerif/Gen", "FaxVerif/Cpp", "FaxVerif/Linq"]
 DRIVER = cgroup.DRIVER
-SETUP_MODULES = ["FaxVerif.Cpp.Json", "FaxVerif.Gen.Render", "FaxVerif.C03.Spec", "FaxVerif.Cpp.Check"]  # what the driver imports
+SETUP_MODULES = cgroup.DRIVER_IMPORTS  # what the driver imports
 THEOREMS = [
     "FaxVerif.C01.pure_expr_correct",
     "FaxVerif.C01.eventRows_correct_partial",
